@@ -759,7 +759,9 @@ fn judge_cancel(spec: &SchedSpec, start: &Content, out: &SchedOut, disk_puts: &B
         ));
     }
     if let Some(r) = &out.restart_obs {
-        let after_ok = linearizable(start, &others, r, disk_puts, true, false) || linearizable(start, &applied, r, disk_puts, true, false);
+        // the victim's bytes may sit in the blob without being served (not applied) - what is
+        // served must be all or nothing; the on-disk parse is checked by the tiling oracle
+        let after_ok = linearizable(start, &others, r, disk_puts, false, false) || linearizable(start, &applied, r, disk_puts, false, false);
         if !after_ok {
             fs.push(finding(
                 "cancel_restart",
